@@ -12,6 +12,7 @@ import (
 	"time"
 
 	"github.com/philpearl/plenc"
+	"github.com/philpearl/plenc/plenccodec"
 
 	"verifharness/core"
 	"verifharness/gen"
@@ -76,6 +77,10 @@ func roundTripCase(c *core.Ctx, idx int, mode int) {
 	sharedTick(c, idx)
 	if idx%509 == 9 {
 		bigContainers(c, idx, mode)
+		return
+	}
+	if idx%37 == 11 && mode == modeC01 {
+		lateRegistration(c, idx)
 		return
 	}
 	tc := genType(c, idx, nil)
@@ -301,6 +306,78 @@ func sizedBodies(c *core.Ctx, idx int, tc *tcase, v reflect.Value, mode int) {
 			rec.Distinct("sized_body_kinds", core.Hash64(fmt.Sprint(target), w.name))
 		}
 	}
+}
+
+// lateRegistration: a codec is registered for a type the instance has already used at top level (the
+// BigQuery codec for time.Time, the flat codec for uint64); values marshalled afterwards still come
+// back through Unmarshal, with other top-level types used in between.
+func lateRegistration(c *core.Ctx, idx int) {
+	rec := c.Rec
+	r := c.Rand(idx)
+	cfg := instCfgs()[idx%4]
+	p := instNew(cfg)
+	name := cfgName(cfg)
+	type step struct {
+		typ reflect.Type
+		reg func()
+		how string
+	}
+	steps := []step{
+		{model.TimeT, func() { p.RegisterCodec(model.TimeT, plenccodec.BQTimestampCodec{}) }, "RegisterCodec(time.Time, BQTimestampCodec)"},
+		{reflect.TypeOf(uint64(0)), func() { p.RegisterCodecWithTag(reflect.TypeOf(uint64(0)), "", plenccodec.FlatIntCodec[uint64]{}) }, `RegisterCodecWithTag(uint64, "", FlatIntCodec)`},
+	}
+	st := steps[(idx/4)%2]
+	vg := &gen.VG{R: r, C: cfg, Budget: 20, Finite: true}
+	value := func() reflect.Value {
+		v := vg.Value(st.typ, "")
+		if st.typ == model.TimeT {
+			// the BigQuery codec keeps microseconds and has no encoding for the zero time
+			t := time.UnixMicro(v.Interface().(time.Time).UnixMicro()).UTC()
+			for t.IsZero() {
+				t = time.UnixMicro(vg.Value(st.typ, "").Interface().(time.Time).UnixMicro()).UTC()
+			}
+			v = reflect.ValueOf(t)
+		}
+		return v
+	}
+	roundTrip := func(when string, between bool) bool {
+		v := value()
+		data, err, pn := marshal(p, nil, ptrTo(v))
+		if err != nil || pn != "" {
+			rec.Violation("late-registration", fmt.Sprintf("[%s] %s: Marshal %v %s", name, when, err, pn), nil)
+			return false
+		}
+		if between {
+			s := "another top-level type"
+			marshal(p, nil, &s)
+			var n int32
+			unmarshal(p, []byte{0x02}, &n)
+		}
+		out := reflect.New(st.typ)
+		if err, pn := unmarshal(p, data, out.Interface()); err != nil || pn != "" {
+			rec.Violation("late-registration", fmt.Sprintf("[%s] %s: Unmarshal of Marshal's output fails: %v %s\n  value %s\n  bytes %s", name, when, err, pn, model.Show(v), hexHead(data)), nil)
+			return false
+		}
+		rec.Eval(1)
+		if d := model.Diff(cfg.Normalise(v, "", true), out.Elem(), "$"); d != "" {
+			rec.Violation("late-registration", fmt.Sprintf("[%s] %s: Unmarshal(Marshal(v)) differs from v: %s\n  value %s\n  bytes %s", name, when, d, model.Show(v), hexHead(data)), nil)
+			return false
+		}
+		return true
+	}
+	for i := 0; i < 3; i++ {
+		if !roundTrip("before any registration", i == 1) {
+			return
+		}
+	}
+	st.reg()
+	for i := 0; i < 4; i++ {
+		if !roundTrip("after "+st.how+" for a type that was already used at top level", i%2 == 0) {
+			return
+		}
+	}
+	rec.Count("late_registrations", 1)
+	rec.NonTrivial(core.Hash64("late", st.how, name, fmt.Sprint(idx)))
 }
 
 type bigElem struct {
